@@ -2,7 +2,9 @@
 import json
 import random
 import string
+import time
 
+from .. import c11_util as U
 from ..common import (COQ, REPO, Report, cbool, clist, copt, cstr, decide, load_findings, run_case_shards, run_impl,
                       standard_proof_part, write_replay)
 
@@ -279,6 +281,248 @@ def build_inputs(rng, tier):
     return inputs
 
 
+# ---------------------------------------------------------------- round 3: LARGE logs / plan files (seeded change C19_D)
+def long_word(rng, lo=12, hi=60):
+    return rng.choice(string.ascii_letters) + "".join(rng.choice(NAMECH) for _ in range(rng.randint(lo, hi) - 1))
+
+
+def long_step(rng):
+    return [long_word(rng, 8, 40)] + [long_word(rng) for _ in range(rng.choice([1, 2, 3, 4]))]
+
+
+def translated_len(text):
+    return len(text.replace("\r\n", "\n").replace("\r", "\n"))
+
+
+def ff_large_case(rng, target, shape):
+    """a Metric-FF log longer than `target` characters given as a literal: many steps, long names, a long header
+    (the plan marker lies beyond the first `target` characters) or a long trailer"""
+    crlf = rng.random() < 0.2
+    eol = "\r\n" if crlf else "\n"
+    tricky_p = rng.choice([0.0, 0.3])
+    pool_h, pool_t = REAL_HEADER, REAL_TRAILER
+
+    def lines(pool, upto):
+        out, n = [], 0
+        while n < upto:
+            l = (rng.choice(TRICKY) if rng.random() < tricky_p else rng.choice(pool)) + eol
+            out.append(l)
+            n += len(l)
+        return out
+    header, trailer = rand_lines(rng, pool_h, 10, tricky_p, crlf), rand_lines(rng, pool_t, 6, tricky_p, crlf)
+    if shape == "long-header":
+        header = lines(pool_h, target + rng.randint(10, 400))
+        steps = [rand_step(rng) for _ in range(rng.randint(1, 40))]
+    elif shape == "long-trailer":
+        trailer = lines(pool_t, target + rng.randint(10, 400))
+        steps = [rand_step(rng) for _ in range(rng.randint(1, 40))]
+    else:
+        steps, n = [], 0
+        while n < target + rng.randint(10, 600):
+            st = long_step(rng) if shape == "long-names" else rand_step(rng)
+            steps.append(st)
+            n += len(" ".join(st)) + 12
+    style = rng.choice(["ff", "ff", "noprefix", "tight", "random"])
+    last = rng.choice(LAST) if rng.random() < 0.3 else ""
+    text = "".join(header) + MARKER + eol + render_steps(rng, steps, style, crlf) + "".join(trailer) + last
+    return dict(kind="ff-large-%s" % shape, enhsp=False, text=text, expect={"plan": [" ".join(s) for s in steps]}, nontrivial=True,
+                nsteps=len(steps), crlf=crlf, in_theorem_grammar=True, chars=len(text))
+
+
+def enhsp_large_case(rng, target, shape):
+    """an ENHSP plan file whose text (after newline translation) is longer than `target` characters"""
+    style = rng.choice(["lf", "lf", "lf", "crlf", "mixed"])
+    eols = {"lf": ["\n"], "crlf": ["\r\n"], "mixed": ["\n", "\r\n", "\r"]}[style]
+    steps, parts, n = [], [], 0
+    goal = target + rng.randint(5, 700)
+    while n < goal:
+        st = long_step(rng) if shape == "long-names" else rand_step(rng)
+        steps.append(st)
+        parts.append("(" + " ".join(st) + ")" + rng.choice(eols))
+        n += len(" ".join(st)) + 3
+    text = "".join(parts)
+    kind = "enhsp-large-%s" % shape
+    if rng.random() < 0.25:
+        text = text.rstrip("\r\n")
+        kind += "-unterminated"
+    return dict(kind=kind, enhsp=True, text=text, expect={"plan": [" ".join(s) for s in steps]}, nontrivial=True,
+                nsteps=len(steps), crlf="\r" in text, chars=len(text))
+
+
+def build_large(rng, tier):
+    out = []
+    targets = [8192] if tier == "quick" else [8192] * 6 + [16384] * 4 + [32768] * 2
+    for i, t in enumerate(targets):
+        out.append(ff_large_case(rng, t, ["many-steps", "long-names", "long-header", "long-trailer"][(i + rng.randint(0, 3)) % 4]))
+        out.append(enhsp_large_case(rng, t, ["long-names", "many-steps"][i % 2]))
+    return out
+
+
+def ff_action(body):
+    return "(" + body.lower().strip() + ")\n"
+
+
+def build_big_case(rng, enhsp, target, shape):
+    """a log / plan file above 64 KiB as SEGMENTS (Corr.BigText.expand); expectation = digest of the action list"""
+    crlf = rng.random() < 0.2
+    eol = "\r\n" if crlf else "\n"
+    segs, exp = [], []
+    if enhsp:
+        nkinds = rng.randint(2, 6)
+        per = target // nkinds + 200
+        for _ in range(nkinds):
+            st = long_step(rng) if shape != "many-steps" else rand_step(rng)
+            line = "(" + " ".join(st) + ")"
+            reps = per // (len(line) + 1) + 1
+            segs.append([line + eol, reps])
+            exp += [line.lower() + "\n"] * reps
+        if rng.random() < 0.3:
+            line = "(" + " ".join(rand_step(rng)) + ")"
+            segs.append([line, 1])
+            exp.append(line.lower())
+        return dict(enhsp=True, segs=segs, expect={"digest": U.digest(exp), "n": len(exp)}, shape=shape, crlf=crlf)
+    hdr_chars = target + 300 if shape == "long-header" else rng.randint(100, 3000)
+    trl_chars = target + 300 if shape == "long-trailer" else rng.randint(100, 3000)
+    body_chars = rng.randint(300, 3000) if shape in ("long-header", "long-trailer", "no-plan") else target + 300
+    for _ in range(rng.randint(1, 4)):
+        l = rng.choice(REAL_HEADER + TRICKY) + eol
+        segs.append([l, max(1, hdr_chars // 3 // len(l))])
+    if shape == "no-plan":
+        # no plan marker anywhere in a long log; a no-solution marker (or none) after more than `target` characters
+        l = rng.choice(REAL_HEADER[1:]) + eol
+        segs.append([l, target // len(l) + 2])
+        nosol = rng.random() < 0.6
+        if nosol:
+            segs.append([rng.choice(["problem proven unsolvable.", "all increasers applied yet goal not fulfilled",
+                                     "ff: goal can be simplified to FALSE. No plan will solve it"]) + eol, 1])
+        segs.append([rng.choice(REAL_TRAILER) + eol, rng.randint(0, 20)])
+        return dict(enhsp=False, segs=segs, expect={"noplan": nosol}, shape=shape, crlf=crlf)
+    segs.append([MARKER + eol, 1])
+    width = rng.choice([4, 4, 1, 0, 6])
+    nkinds = rng.randint(2, 5)
+    per = body_chars // nkinds
+    i = 0
+    for k in range(nkinds):
+        st = long_step(rng) if shape != "many-steps" else rand_step(rng) + [long_word(rng)]
+        body = " ".join(st)
+        count = max(1, per // (len(body) + 8 + len(eol)))
+        pre = "     " if width == 4 else rng.choice(["", " ", "\t", "step "])
+        if k == 0 and width == 4:
+            segs.append({"pre": "step ", "width": 4, "start": 0, "count": 1, "post": ": " + body + eol})
+            exp.append(ff_action(body))
+            i, count = 1, max(1, count - 1)
+        segs.append({"pre": pre, "width": width, "start": i, "count": count, "post": ": " + body + eol})
+        exp += [ff_action(body)] * count
+        i += count
+    for _ in range(rng.randint(1, 3)):
+        l = rng.choice(REAL_TRAILER + TRICKY[:12]) + eol
+        segs.append([l, max(1, trl_chars // 2 // len(l))])
+    return dict(enhsp=False, segs=segs, expect={"digest": U.digest(exp), "n": len(exp)}, shape=shape, crlf=crlf)
+
+
+def build_big(rng, tier):
+    plan = [(True, 66000, "long-names"), (True, 132000, "many-steps"), (False, 66000, "long-names"), (False, 66000, "long-header"),
+            (False, 66000, "no-plan"),
+            # cheap ones around the smaller plausible buffer sizes
+            (True, 8192, "many-steps"), (True, 16384, "long-names"), (False, 8192, "many-steps"), (False, 16384, "long-header"),
+            (False, 8192, "long-trailer"), (False, 8192, "no-plan")]
+    if tier == "thorough":
+        plan += [(True, 66000, "many-steps"), (True, 270000, "long-names"), (False, 66000, "long-trailer"), (False, 132000, "long-names"),
+                 (False, 132000, "long-header"), (False, 66000, "many-steps"), (False, 132000, "no-plan"), (False, 66000, "long-names")]
+    return [build_big_case(rng, *p) for p in plan]
+
+
+def big_lit(b, res):
+    def dg(d):
+        return "(%d%%uint63, %d%%uint63, %d%%uint63)" % tuple(d)
+
+    def sg(x):
+        if isinstance(x, dict):
+            return "Numbered %s %d %d %d %s" % (cstr(x["pre"]), x["width"], x["start"], x["count"], cstr(x["post"]))
+        return "Rep %s %d" % (cstr(x[0]), x[1])
+    e = b["expect"]
+    exp = "BExpNone" if e is None else "(BExpPlan %s)" % dg(e["digest"]) if "digest" in e else "(BExpNoPlan %s)" % cbool(e["noplan"])
+    if "raised" in res:
+        status, acts, joined, fil = "raised:" + res["raised"], [0, 0, 0], [0, 0, 0], None
+    else:
+        status, acts, joined, fil = res["status"], res["actions"], res["joined"], res["file"]
+    return "{| b_enhsp := %s; b_segs := %s; b_status := %s; b_actions := %s; b_joined := %s; b_file := %s; b_expect := %s |}" % (
+        cbool(b["enhsp"]), clist(sg(x) for x in b["segs"]), cstr(status), dg(acts), dg(joined),
+        "None" if fil is None else "(Some %s)" % dg(fil), exp)
+
+
+# ---------------------------------------------------------------- round 3: call sequences on one path
+def same_length_word(rng, w):
+    chars = list(w)
+    idxs = [i for i, c in enumerate(chars) if c.isalnum()]
+    if not idxs:
+        return w
+    i = rng.choice(idxs)
+    pool = string.ascii_letters if chars[i].isalpha() else string.digits
+    chars[i] = rng.choice([c for c in pool if c.lower() != chars[i].lower()])
+    return "".join(chars)
+
+
+def build_sequences(rng, tier):
+    """the same log path written and parsed several times in ONE process: a text, then other texts of the same length
+    (renamed words, other case, steps in reverse order, a damaged plan marker), a text of another length, re-reads;
+    ENHSP: the file as parse_plan left it is parsed again.  Every step is one case on the text at the path at that moment."""
+    seqs = []
+    n = 16 if tier == "quick" else 250
+    while len(seqs) < n:
+        enhsp = rng.random() < 0.4
+        steps = [rand_step(rng) for _ in range(rng.randint(1, 12))]
+        variants = []
+        ren = [[same_length_word(rng, w) if rng.random() < 0.5 else w for w in st] for st in steps]
+        variants.append(("rename", ren))
+        variants.append(("case", [[w.swapcase() for w in st] for st in steps]))
+        variants.append(("reverse", list(reversed(steps))))
+        rng.shuffle(variants)
+        how = rng.choice(["overwrite", "overwrite", "replace", "recreate"])
+        if enhsp:
+            eol = rng.choice(["\n", "\n", "\r\n"])
+            text_of = lambda sts: "".join("(" + " ".join(s) + ")" + eol for s in sts)
+        else:
+            crlf = rng.random() < 0.2
+            style = rng.choice(["ff", "ff", "noprefix", "tight", "random"])
+            header = "".join(rand_lines(rng, REAL_HEADER, 6, 0.2, crlf))
+            trailer = "".join(rand_lines(rng, REAL_TRAILER, 4, 0.2, crlf))
+            state = rng.getstate()
+
+            def text_of(sts, state=state, header=header, trailer=trailer, style=style, crlf=crlf):
+                keep = rng.getstate()
+                rng.setstate(state)           # the same layout draws for every variant: same length
+                t = header + MARKER + ("\r\n" if crlf else "\n") + render_steps(rng, sts, style, crlf) + trailer
+                rng.setstate(keep)
+                return t
+        a_text = text_of(steps)
+        sq = [dict(enhsp=enhsp, text=a_text, expect={"plan": [" ".join(s) for s in steps]}, write=True, how=how, note="first")]
+        if enhsp:
+            sq.append(dict(enhsp=True, text=None, expect={"plan": [" ".join(s).lower() for s in steps]}, write=False, how=None,
+                           note="the file as parse_plan rewrote it"))
+        for name, sts in variants[:rng.randint(1, 3)]:
+            t = text_of(sts)
+            if len(t) != len(a_text) or t == a_text:
+                continue
+            sq.append(dict(enhsp=enhsp, text=t, expect={"plan": [" ".join(s) for s in sts]}, write=True, how=how, note="same-length:" + name))
+        if not enhsp and rng.random() < 0.5:
+            pos = a_text.index(MARKER) + rng.randint(0, len(MARKER) - 1)
+            t = a_text[:pos] + ("X" if a_text[pos] != "X" else "Y") + a_text[pos + 1:]
+            sq.append(dict(enhsp=False, text=t, expect=None, write=True, how=how, note="same-length:marker-damaged"))
+            sq.append(dict(enhsp=False, text=a_text, expect={"plan": [" ".join(s) for s in steps]}, write=True, how=how, note="the first text again"))
+        if rng.random() < 0.4:
+            more = steps + [rand_step(rng)]
+            sq.append(dict(enhsp=enhsp, text=text_of(more), expect={"plan": [" ".join(s) for s in more]}, write=True, how=how, note="other length"))
+            name, sts = variants[0]
+            t = text_of(sts)
+            if len(t) == len(a_text):
+                sq.append(dict(enhsp=enhsp, text=t, expect={"plan": [" ".join(s) for s in sts]}, write=True, how=how,
+                               note="length of the first text again:" + name))
+        if len(sq) >= 2:
+            seqs.append({"enhsp": enhsp, "how": how, "steps": sq})
+    return seqs
+
+
 # ---------------------------------------------------------------- Coq literals
 def expect_lit(exp):
     if exp is None:
@@ -293,9 +537,11 @@ def case_lit(inp, res):
         status, actions, written = "raised:" + res["raised"], [], None
     else:
         status, actions, written = res["status"], res["actions"], res["file"]
-    return "{| c_enhsp := %s; c_text := %s; c_status := %s; c_actions := %s; c_file := %s; c_expect := %s |}" % (
-        cbool(inp["enhsp"]), cstr(inp["text"]), cstr(status), clist([cstr(a) for a in actions]), copt(written),
-        expect_lit(inp["expect"]))
+    # literal compression: a plan file that is exactly the concatenation of the returned actions is not sent twice
+    concat = written is not None and written == "".join(actions)
+    return "{| c_enhsp := %s; c_text := %s; c_status := %s; c_actions := %s; c_file := %s; c_file_concat := %s; c_expect := %s |}" % (
+        cbool(inp["enhsp"]), cstr(inp["text"]), cstr(status), clist([cstr(a) for a in actions]), copt(None if concat else written),
+        cbool(concat), expect_lit(inp["expect"]))
 
 
 def consts_header(k):
@@ -317,24 +563,87 @@ def run(args):
     rep = Report(PROP, args.tier, args.seed)
     standard_proof_part(rep, PROP)
     rng = random.Random(args.seed * 7919 + 19)
+    seqs, bigs = [], []
     if args.replay:
-        data = json.load(open(args.replay))
-        inputs = [data["input"]["case"]]
+        data = json.load(open(args.replay))["input"]
+        inputs = []
+        if "sequence" in data:
+            seqs = [data["sequence"]]
+        elif "big" in data:
+            bigs = [data["big"]]
+        else:
+            inputs = [data["case"]]
     else:
         inputs = build_inputs(rng, args.tier)
+        inputs += build_large(random.Random(args.seed * 7919 + 20), args.tier)
+        seqs = build_sequences(random.Random(args.seed * 7919 + 21), args.tier)
+        bigs = build_big(random.Random(args.seed * 7919 + 22), args.tier)
     pre = run_impl([{"op": "c19.consts"}, {"op": "c19.facts"}], nproc=1)
     consts, facts = pre[0], pre[1]
     f_ok = facts_ok(facts)
+    timing, t0 = {}, time.time()
     jobs = [{"op": "c19.enhsp" if i["enhsp"] else "c19.ff", "text": i["text"]} for i in inputs]
-    results = run_impl(jobs)
+    jobs += [{"op": "c19.sequence", "steps": sq["steps"]} for sq in seqs]
+    raw = run_impl(jobs)
+    results = list(raw[:len(inputs)])
+    # one ordinary case per step of each sequence, on the text that was at the path when the step began
+    n_plain = len(inputs)
+    for sid, (sq, r) in enumerate(zip(seqs, raw[n_plain:])):
+        steps = r.get("steps") if isinstance(r, dict) else None
+        if steps is None or len(steps) != len(sq["steps"]):
+            steps = [r if isinstance(r, dict) and "raised" in r else {"raised": "SequenceFailed"}] * len(sq["steps"])
+        for k, (st, res) in enumerate(zip(sq["steps"], steps)):
+            text = st["text"] if st["text"] is not None else res.get("text_at_path", "")
+            inputs.append(dict(kind="seq-" + ("enhsp" if st["enhsp"] else "ff"), enhsp=st["enhsp"], text=text, expect=st["expect"],
+                               nontrivial=True, nsteps=len(st["expect"]["plan"]) if st["expect"] else 0, crlf="\r" in text,
+                               seq=sid, step=k, note=st["note"]))
+            results.append({k2: v for k2, v in res.items() if k2 != "text_at_path"})
+    timing["impl_s"] = round(time.time() - t0, 1)
+    t0 = time.time()
     cases = []
     for inp, res in zip(inputs, results):
-        cases.append({"lit": case_lit(inp, res), "input": {"case": inp, "implementation": res, "patterns": consts},
+        payload = {"case": inp, "implementation": res, "patterns": consts}
+        if "seq" in inp:
+            payload["sequence"] = seqs[inp["seq"]]
+            payload["failing_step"] = inp["step"]
+        cases.append({"lit": case_lit(inp, res), "input": payload,
                       "nontrivial": inp["nontrivial"], "witness_of": inp.get("witness_of")})
     header = consts_header(consts) if "plan" in consts else consts_header({"plan": "?", "valid": "?", "nosol": []})
     verdicts, info = run_case_shards(PROP, "Corr.C19", [c["lit"] for c in cases], shard_size=120, run_fn="run impl_consts",
-                                     header_extra=header, max_bytes=110_000)
+                                     header_extra=header, max_bytes=70_000)
     decide(rep, PROP, "Corr.C19", cases, verdicts, info, explain_expr="explain impl_consts %s", header_extra=header)
+    timing["coq_cases_s"] = round(time.time() - t0, 1)
+    t0 = time.time()
+    cov = rep.coverage
+    if bigs:
+        # LARGE files (> 64 KiB): segments in, digests out; one shard per case
+        small_counts, small_distinct = dict(cov.get("verdict_counts", {})), cov.get("distinct_nontrivial", 0)
+        bres = run_impl([{"op": "c19.enhsp_big" if b["enhsp"] else "c19.ff_big", "segs": b["segs"]} for b in bigs], nproc=min(8, len(bigs)))
+        bheader = "From Coq Require Import Uint63.\nFrom Verif Require Import Corr.BigText.\n" + header
+        bcases = [{"lit": big_lit(b, r), "input": {"big": b, "implementation": r, "patterns": consts}, "nontrivial": True, "witness_of": None}
+                  for b, r in zip(bigs, bres)]
+        bver, binfo = run_case_shards(PROP + "/big", "Corr.C19", [c["lit"] for c in bcases], shard_size=1, run_fn="run_big impl_consts",
+                                      header_extra=bheader)
+        n_before = len(rep.violations)
+        decide(rep, PROP, "Corr.C19", bcases, bver, binfo, explain_expr="explain_big impl_consts %s", header_extra=bheader)
+        for j in range(n_before, len(rep.violations)):
+            old, concrete = rep.violations[j]
+            new = old.with_name("big_" + old.name)
+            payload = json.loads(old.read_text())
+            payload["replay_cmd"] = "./check %s --replay %s" % (PROP, new)
+            new.write_text(json.dumps(payload, indent=1))
+            old.unlink()
+            rep.violations[j] = (new, concrete)
+        cov["big_verdict_counts"] = dict(cov.get("verdict_counts", {}))
+        merged = dict(small_counts)
+        for k, v in cov["big_verdict_counts"].items():
+            merged[k] = merged.get(k, 0) + v
+        cov["verdict_counts"] = merged
+        cov["distinct_nontrivial"] = small_distinct + cov.get("distinct_nontrivial", 0)
+        cov["big_inputs"] = [{"enhsp": b["enhsp"], "shape": b["shape"], "crlf": b["crlf"], "chars": r.get("chars"), "actions": r.get("n_actions"),
+                              "status": r.get("status", "raised")} for b, r in zip(bigs, bres)]
+    timing["big_s"] = round(time.time() - t0, 1)
+    cov["timing_s"] = timing
     if not f_ok:
         p = write_replay(PROP, "cpython_facts", {"kind": "correspondence", "why": r"CPython facts (\d, \w, strip, '.', lower, linesep) differ from the model", "facts": facts})
         rep.violation(p, False)
@@ -347,6 +656,14 @@ def run(args):
             sizes["0" if n == 0 else "1-9" if n < 10 else "10-99" if n < 100 else "100-150"] += 1
     cov["input_distribution"] = kinds
     cov["plan_sizes"] = sizes
+    cov["large_literal_cases"] = sorted(i["chars"] for i in inputs if "chars" in i)
+    cov["sequences"] = {"count": len(seqs), "steps": sum(len(q["steps"]) for q in seqs), "enhsp": sum(1 for q in seqs if q["enhsp"]),
+                        "how": {h: sum(1 for q in seqs if q["how"] == h) for h in sorted({q["how"] for q in seqs})},
+                        "notes": {}}
+    for q in seqs:
+        for st in q["steps"]:
+            nk = st["note"].split(":")[-1] if ":" in st["note"] else st["note"]
+            cov["sequences"]["notes"][nk] = cov["sequences"]["notes"].get(nk, 0) + 1
     cov["crlf_cases"] = sum(1 for i in inputs if i.get("crlf"))
     cov["inside_theorem_grammar"] = sum(1 for i in inputs if i.get("in_theorem_grammar"))
     cov["statuses"] = {}
@@ -369,7 +686,11 @@ def run(args):
                    "names in [A-Za-z0-9_-], rendered as Metric-FF logs in 7 layouts (step prefix, indentation with blanks/tabs, number widths 1-4, blanks "
                    "around the action, LF/CRLF) between header and trailer lines drawn from the shipped log and from a list of dangerous lines "
                    "('<digit>: word', word-only lines, near-miss labels), optional unterminated last line; logs without plan marker with planted / near-miss "
-                   "no-solution markers; raw character and fragment soup; ENHSP files with LF/CRLF/CR line ends; the log shipped in tests/exporters_tests. "
+                   "no-solution markers; raw character and fragment soup; ENHSP files with LF/CRLF/CR line ends; the log shipped in tests/exporters_tests; "
+                   "LARGE files: logs and ENHSP files above 8 KiB / 16 KiB as literals (many steps, long names, long header, long trailer) and above "
+                   "64 KiB / 128 KiB as segments with the action list and plan file compared by digest (plan marker or no-solution marker beyond the first "
+                   "64 KiB); call SEQUENCES on one path in one process (same-length rewrites: renamed words, case, reversed steps, damaged marker; other "
+                   "length; ENHSP file re-read after parse_plan rewrote it), each step judged on the text at the path at that moment. "
                    "Observed: status, action list, plan file.  Non-trivial: non-empty text (soup: more than 5 characters); distinct by input hash.")
     cov["samples"] = [{k: v for k, v in c["input"]["case"].items() if k != "text"} | {"text": c["input"]["case"]["text"][:300]}
                       for c in (cases[:2] + cases[-2:])]
